@@ -17,7 +17,10 @@ KINDS = [0, 1, 3, 4, 5, 7, 9999, 10000, 10002, 19999, 20000, 29999, 30000, 30001
 BIG_KINDS = [2 ** 32 - 1, 2 ** 32, -1]
 T0 = 1700000000
 TIMES = [T0, T0 + 1, T0 + 2, T0 + 50, T0 + 100, T0 + 255, T0 + 256, T0 + 65535, T0 + 65536, 0x65ffffff, 0x66000000,
-         1, 255, 256, 2145934799]
+         1, 255, 256, 2145934799,
+         # far-future timestamps whose big-endian form starts with ff (no validator of the default configuration refuses
+         # them; `until` cannot reach them, `since` can)
+         0xfeffffff, 0xff000000, 0xff000001, 0xffffffff]
 TAG_NAMES = ["e", "p", "t", "d", "a", "é", "expiration", "delegation", "client", "xy"]
 TAG_VALUES = ["a", "ab", "abc", "b", "", "a\x00b", "é", "ü", "\U0001f600", "'", "a'b", "x:y", ":w", "%", "_", "--", "a b",
               "A", "0", "17", "1700000000"]
